@@ -13,6 +13,7 @@ import Psa.Driver.DispatchIO
 import Psa.Driver.GatesIO
 import Psa.Driver.EvIO
 import Psa.Driver.EncIO
+import Psa.Driver.RegIO
 namespace Psa.Driver
 open Psa
 
@@ -83,6 +84,7 @@ def runLine (l : String) : String :=
       | "synth" => opSynth args
       | "pop" => opPop args
       | "omap" => opOmap args
+      | "reg" => opReg args
       | "dispatch-cbor" => opDispatchCbor args
       | "dispatch-json" => opDispatchJson args
       | _ => "bad-op"
